@@ -1124,6 +1124,22 @@ fn classify_reser_mismatch(consumed: &[u8]) -> &'static str {
 /// the same value; whatever is accepted has in-range amounts, a txid equal to sha256d of the
 /// consumed bytes (v1–v4), serialises, and the serialisation parses back to the same value, txid,
 /// auth commitment and bytes (fixed point after one step).
+/// A reader that never returns more than `chunk` bytes per `read` call.
+struct ChunkReader<'a> {
+    data: &'a [u8],
+    pos: usize,
+    chunk: usize,
+}
+
+impl std::io::Read for ChunkReader<'_> {
+    fn read(&mut self, buf: &mut [u8]) -> std::io::Result<usize> {
+        let n = buf.len().min(self.chunk).min(self.data.len() - self.pos);
+        buf[..n].copy_from_slice(&self.data[self.pos..self.pos + n]);
+        self.pos += n;
+        Ok(n)
+    }
+}
+
 pub fn check_tx_bytes(branch_selector: u8, bytes: &[u8]) -> Result<TxObs, Fail> {
     let branch = BRANCHES[branch_selector as usize % BRANCHES.len()];
     let (r, pos) = parse_tx(bytes, branch)
@@ -1164,6 +1180,27 @@ pub fn check_tx_bytes(branch_selector: u8, bytes: &[u8]) -> Result<TxObs, Fail> 
                 if let Some(df) = d0.diff(&dump_tx(&t2)) {
                     vfail!("read-beyond-reported-consumption", "value differs when parsing only the consumed {pos} bytes: {df}");
                 }
+            }
+        }
+    }
+    // The result must not depend on how the underlying reader delivers the bytes: a reader that returns
+    // short reads (a socket, a BufReader at a refill, Read::chain) must give the same transaction.
+    for chunk in [1usize, 7, 1024, 1 + (pos % 61)] {
+        let mut rd = ChunkReader { data: bytes, pos: 0, chunk };
+        let r3 = vcore::catch(|| Transaction::read(&mut rd, branch))
+            .map_err(|p| Fail::new(format!("tx-read-panic:{}", panic_site(&p)), format!("Transaction::read panicked with a reader delivering {chunk}-byte chunks: {p}")))?;
+        match r3 {
+            Err(e) => vfail!("chunked-reader-rejected", "accepted from a slice but rejected from a reader delivering {chunk}-byte chunks: {e}; input {}", hx(consumed)),
+            Ok(t3) => {
+                vensure!(rd.pos == pos, "chunked-reader-consumption", "a reader delivering {chunk}-byte chunks consumed {} bytes, the slice parse {pos}", rd.pos);
+                vensure!(
+                    t3.txid() == tx.txid() && t3.auth_commitment() == tx.auth_commitment(),
+                    "txid-depends-on-reader-chunking",
+                    "v{version} txid {} when parsed from a slice but {} when parsed from a reader delivering {chunk}-byte chunks; input {}",
+                    hex::encode(txid),
+                    hex::encode(t3.txid().as_ref()),
+                    hx(consumed)
+                );
             }
         }
     }
@@ -1297,6 +1334,14 @@ pub fn check_header_bytes(bytes: &[u8]) -> Result<HdrObs, Fail> {
     }
     vensure!(hash == sha256d(&out), "header-hash-not-sha256d-of-write", "hash {} but sha256d(write()) = {}", hex::encode(hash), hex::encode(sha256d(&out)));
     vensure!(out == consumed, "header-reserialization-differs", "write() differs from the consumed bytes: {} vs {}", hx(&out), hx(consumed));
+    for chunk in [1usize, 5, 33] {
+        let mut rd = ChunkReader { data: bytes, pos: 0, chunk };
+        match vcore::catch(|| zcash_primitives::block::BlockHeader::read(&mut rd)) {
+            Ok(Ok(h3)) => vensure!(h3.hash() == h.hash() && rd.pos == pos, "header-depends-on-reader-chunking", "hash/consumption differ with a reader delivering {chunk}-byte chunks ({:?} after {} bytes)", h3.hash(), rd.pos),
+            Ok(Err(e)) => vfail!("header-chunked-reader-rejected", "accepted from a slice, rejected from a {chunk}-byte chunk reader: {e}"),
+            Err(p) => vfail!(format!("header-read-panic:{}", panic_site(&p)), "BlockHeader::read panicked with a chunking reader: {p}"),
+        }
+    }
     vensure!(header_fields(&h) == consumed, "header-field-mismatch", "fields of the parsed header do not re-encode (reference serialiser) to the consumed bytes; input {}", hx(consumed));
     if pos < bytes.len() {
         match parse_header(consumed) {
